@@ -275,6 +275,39 @@ fn main() {
                 let f = gen::gen(fam, n, &mut rng);
                 both(ctx, &mut local, n, |ty| Ev::new("canon", ty, n).st(g.name()).tab(&f));
             }
+            // functions of three variables placed on triples of variables (the others vacuous): their tables
+            // are full of equal and constant words, where early exits and word-wise shortcuts go wrong.
+            // N and P: every function on every triple for n = 7, 8 (thorough: also 9 for P, to 10 for N);
+            // NPN: sampled (each call walks the whole group).
+            if n >= 7 {
+                let sweep = match g {
+                    Group::N => n <= if thorough { 10 } else { 8 },
+                    Group::P => n <= if thorough { 8 } else { 7 },
+                    Group::Npn => false,
+                };
+                let mut t = 0usize;
+                for a in 0..n {
+                    for b2 in a + 1..n {
+                        for c2 in b2 + 1..n {
+                            t += 1;
+                            if t % chunks != c {
+                                continue;
+                            }
+                            if sweep {
+                                for gg in 0..256u64 {
+                                    let blocks = gen::small_support_blocks(n, &[a, b2, c2], gg);
+                                    both(ctx, &mut local, n, |ty| Ev::new("canon", ty, n).st(g.name()).tab(&blocks));
+                                }
+                            } else if g == Group::Npn && n == 7 {
+                                for _ in 0..if thorough { 16 } else { 1 } {
+                                    let blocks = gen::small_support_blocks(n, &[a, b2, c2], rng.next_u64() & 0xff);
+                                    both(ctx, &mut local, n, |ty| Ev::new("canon", ty, n).st(g.name()).tab(&blocks));
+                                }
+                            }
+                        }
+                    }
+                }
+            }
             // metamorphic volume (cheap: two library calls, no oracle orbit)
             let metas = match (g, n) {
                 (Group::Npn, 8) => 1,
